@@ -29,7 +29,8 @@ Inductive item :=
 | RhsItem (r : rhs)                       (* '[' alts ']' builds Opt(Rhs) *)
 with rhs := Rhs (id : N) (alts : list alt)
 with alt := Alt (items : list nitem) (act : option action)
-with nitem := NItem (name : option string) (ty : option string) (it : item).
+with nitem := NItem (id : N) (name : option string) (ty : option string) (it : item).
+(* the id of a NamedItem stands for the identity of the Python object: its `nullable` attribute is mutable state *)
 
 Record rule := {
   rname : string;
@@ -47,9 +48,10 @@ Definition rhs_alts (r : rhs) : list alt := match r with Rhs _ a => a end.
 Definition rhs_id (r : rhs) : N := match r with Rhs i _ => i end.
 Definition alt_items (a : alt) : list nitem := match a with Alt i _ => i end.
 Definition alt_action (a : alt) : option action := match a with Alt _ x => x end.
-Definition ni_name (n : nitem) : option string := match n with NItem x _ _ => x end.
-Definition ni_type (n : nitem) : option string := match n with NItem _ t _ => t end.
-Definition ni_item (n : nitem) : item := match n with NItem _ _ i => i end.
+Definition ni_name (n : nitem) : option string := match n with NItem _ x _ _ => x end.
+Definition ni_type (n : nitem) : option string := match n with NItem _ _ t _ => t end.
+Definition ni_item (n : nitem) : item := match n with NItem _ _ _ i => i end.
+Definition ni_id (n : nitem) : N := match n with NItem k _ _ _ => k end.
 
 Fixpoint find_rule (rs : list rule) (n : string) : option rule :=
   match rs with
@@ -90,4 +92,4 @@ with alt_size (a : alt) : nat :=
     S ((fix go (l : list nitem) : nat := match l with [] => 0 | n :: l' => nitem_size n + go l' end) items)
   end
 with nitem_size (n : nitem) : nat :=
-  match n with NItem _ _ i => S (item_size i) end.
+  match n with NItem _ _ _ i => S (item_size i) end.
